@@ -129,6 +129,9 @@ def random_cfgs(tier, base_id, algos=("SOO", "StoSOO", "DOO"), neg=False, allq=F
                 prm["delta_kind"] = rnd.choice(["pow2", "lin"])
             i += 1
             pat = rnd.choice(["g01", "peak", "flat", "tied", "gneg", "const", "ints"])
+            if algo == "StoSOO" and rep % 5 == 2:
+                prm["k"] = rnd.choice([70, 100, 130])       # cells evaluated more than 64 / 100 times (bounded histories, small-int caches)
+                n = max(n, 400)
             if algo == "StoSOO" and rep % 5 == 4:
                 prm["h_max"] = rnd.choice([1, 2, 3])     # a cap the run reaches (the run then ends with the C01 input class "cap too small")
                 prm["k"] = rnd.choice([1, 2, 3])
